@@ -314,7 +314,8 @@ def scaled_endpoints(draw, own, given, phases, threept):
             e[small] = e[big] if coincide[small] else draw(st.integers(100, e[big]))
     for p in PC_KW:
         if p in own and p in given:
-            e[p] = draw(st.integers(100, 10000))
+            # (exactly 0 = capillary pressure switched off in this cell, the usual use of PCW / PCG)
+            e[p] = 0 if draw(st.integers(0, 7)) == 0 else draw(st.integers(100, 10000))
     return e
 
 
